@@ -1,0 +1,38 @@
+//go:build verif
+
+package kerr
+
+// Verification contracts (comments only), read by /verif/govc. Compiled only with -tags verif; no code.
+
+// ---- C24: the error-code table ----
+// tableOK: what the package initialiser establishes and nothing afterwards writes (code2err is assigned once, by
+// the initialiser; no function of the package stores to it or to the map): every entry other than 0 holds a
+// non-nil *Error whose Code is its key; key 0 holds nil; UnknownServerError carries -1.
+//@ spec tableOK() bool = in(code2err, 0) && code2err[0] == nil && UnknownServerError != nil && UnknownServerError.Code == -1 &&
+//@   (forall c int16 :: (in(code2err, c) && c != 0) ==> (code2err[c] != nil && unbox(code2err[c], Error).Code == c))
+
+// The package initialiser (the var declarations and the map literal, as go/ssa compiles them) establishes tableOK.
+//@ func init()
+//@   prop C24
+//@   ensures [the-table-is-consistent] tableOK()
+
+// ErrorForCode / TypedErrorForCode: code 0 is no error, a listed code is the error carrying that code, an
+// unlisted code is UnknownServerError.
+//@ func ErrorForCode(code int16) (err error)
+//@   prop C24
+//@   nopanic
+//@   requires tableOK()
+//@   ensures [zero-is-no-error] code == 0 ==> err == nil
+//@   ensures [listed-code-carries-that-code] (code != 0 && old(in(code2err, code))) ==> (err != nil && unbox(err, Error).Code == code)
+//@   ensures [unlisted-is-unknown-server-error] !old(in(code2err, code)) ==> (err != nil && unbox(err, Error) == UnknownServerError)
+//@ func TypedErrorForCode(code int16) (e *Error)
+//@   prop C24
+//@   requires tableOK()
+//@   ensures [zero-is-no-error] code == 0 ==> e == nil
+//@   ensures [unlisted-is-unknown-server-error] !old(in(code2err, code)) ==> e == UnknownServerError
+
+// tableOK is a package invariant: established by init (above) and never disturbed - a package-wide scan, on every
+// run, finds no function other than the initialiser that stores to these variables, updates the map, or lets them
+// escape, and no store to an Error's Code.
+//@ audit initonly code2err, UnknownServerError, Error.Code
+//@   prop C24
